@@ -112,3 +112,72 @@ def target_operation():
 
 
 TARGETS = {"_type_check_operation": target_operation}
+
+
+def target_positional():
+    """The positional rules: array size / field start / field size are integers, an existence condition is a boolean, a
+    run-time parameter is an integer or an enum, and a passed parameter has the TYPE of the declared one (for enums: the
+    same enum, not just "an enum"); the number of passed parameters matches."""
+    tc = importlib.import_module(TC)
+    ir_util = importlib.import_module("compiler.util.ir_util")
+    idu = importlib.import_module("compiler.util.ir_data_utils")
+    error = importlib.import_module("compiler.util.error")
+    eng = pyvc.Engine()
+    eng.identity(idu.reader)
+    eng.identity(idu.builder)
+    for f in (error.error, error.note, error.warn):
+        eng.contract(f, lambda interp, *a, **k: SRec("ErrorMessage", {}), f.__name__)
+    eng.contract(ir_util.hashable_form_of_reference, lambda interp, r: r.f["ghost_name"], "hashable_form_of_reference")
+    eng.contract(ir_util.find_object, lambda interp, name, ir: name.f["ghost_object"], "find_object")
+
+    def expr(kd):
+        t = {"which_type": WHICH[kd]}
+        if kd.startswith("enum"):
+            t["enumeration"] = SRec("EnumType", {"name": SRec("Reference", {"ghost_name": kd, "canonical_name": SRec("CanonicalName", {"object_path": [kd]})})})
+        return SRec("Expression", {"type": SRec("ExpressionType", t), "source_location": SRec("SourceLocation", {}),
+                                   "physical_type_alias": SRec("Type", {"source_location": SRec("SourceLocation", {})})})
+
+    def harness(c):
+        rule = c.choice("rule", ["array-size", "field-location", "existence-condition", "parameter-declaration", "passed-parameters"])
+        errors = []
+        c.covered = True
+        if rule == "array-size":
+            kd = c.choice("kind", KINDS)
+            pyvc.run_body(c, TC + "._type_check_array_size", [expr(kd), "f.emb", errors])
+            c.oblige("error-iff-not-an-integer", (len(errors) == 1) == (kd != "int") and len(errors) <= 1)
+        elif rule == "field-location":
+            ks, kz = c.choice("start", KINDS), c.choice("size", KINDS)
+            pyvc.run_body(c, TC + "._type_check_field_location", [SRec("FieldLocation", {"start": expr(ks), "size": expr(kz)}), "f.emb", errors])
+            c.oblige("one-error-per-non-integer-part", len(errors) == (ks != "int") + (kz != "int"))
+        elif rule == "existence-condition":
+            kd = c.choice("kind", KINDS)
+            pyvc.run_body(c, TC + "._type_check_field_existence_condition", [SRec("Field", {"existence_condition": expr(kd)}), "f.emb", errors])
+            c.oblige("error-iff-not-a-boolean", (len(errors) == 1) == (kd != "bool") and len(errors) <= 1)
+        elif rule == "parameter-declaration":
+            kd = c.choice("kind", KINDS)
+            pyvc.run_body(c, TC + "._type_check_parameter", [expr(kd), "f.emb", errors])
+            c.oblige("error-iff-not-integer-or-enum", (len(errors) == 1) == (kd not in ("int", "enumA", "enumB")) and len(errors) <= 1)
+        else:
+            nd = int(c.choice("declared", ["0", "1", "2"]))
+            np_ = int(c.choice("passed", ["0", "1", "2"]))
+            declared = [c.choice("d%d" % i, KINDS) for i in range(nd)]
+            passed = [c.choice("p%d" % i, KINDS) for i in range(np_)]
+            ref_type = SRec("TypeDefinition", {"runtime_parameter": [expr(k_) for k_ in declared], "name": SRec("NameDefinition", {"name": SRec("Word", {"text": "Tt"})}),
+                                               "source_location": SRec("SourceLocation", {})})
+            at = SRec("AtomicType", {"runtime_parameter": [expr(k_) for k_ in passed], "source_location": SRec("SourceLocation", {}),
+                                     "reference": SRec("Reference", {"canonical_name": SRec("CanonicalName", {"module_file": "f.emb", "ghost_object": ref_type})})})
+            try:
+                pyvc.run_body(c, TC + "._type_check_passed_parameters", [at, SRec("EmbossIr", {}), "f.emb", errors])
+            except pyvc.PathEnd:
+                return
+            if nd != np_:
+                c.oblige("count-mismatch-is-one-error", len(errors) == 1)
+                return
+            # an opaque DECLARED parameter is reported at the declaration (_type_check_parameter), not at the use
+            want = sum(1 for d_, p_ in zip(declared, passed) if d_ != "opaque" and d_ != p_)
+            c.oblige("one-error-per-parameter-of-the-wrong-type", len(errors) == want, detail="declared %s passed %s: %d errors" % (declared, passed, len(errors)))
+    paths = eng.explore(harness)
+    return pyvc.collect(paths, "positional"), sum(1 for p in paths if p.covered)
+
+
+TARGETS["positional"] = target_positional
